@@ -49,7 +49,11 @@ type exeOutcome struct {
 }
 
 func resolveExe(h *back.Harness, exe *ggql.Executable, op string, vars map[string]interface{}) exeOutcome {
-	h.Reset(nil)
+	return resolveExePlan(h, exe, op, vars, nil)
+}
+
+func resolveExePlan(h *back.Harness, exe *ggql.Executable, op string, vars map[string]interface{}, plan model.FaultPlan) exeOutcome {
+	h.Reset(plan)
 	var o exeOutcome
 	var res map[string]interface{}
 	var err error
@@ -102,6 +106,7 @@ func runC11(c *run.Ctx) {
 		k := 2 + r.Intn(5)
 		var hist []map[string]interface{}
 		bad := false
+		var lastCalls []back.Call
 		for j := 0; j < k && !bad; j++ {
 			op := ec.DC.OpName
 			if len(ec.DC.Doc.Ops) > 1 {
@@ -112,12 +117,20 @@ func runC11(c *run.Ctx) {
 				vars = gen.AltVars(r, ec.S, ec.DC)
 			}
 			hist = append(hist, map[string]interface{}{"op": op, "vars": vars})
-			got := resolveExe(h, exe, op, vars)
+			var plan model.FaultPlan
+			if j > 0 && j < k-1 && r.Intn(5) == 0 && len(lastCalls) > 1 {
+				// this call is cut short: a resolver (application code) panics somewhere in the middle and the caller recovers
+				plan = model.FaultPlan{lastCalls[1+r.Intn(len(lastCalls)-1)].Key: model.Fault{Kind: "panic"}}
+				hist[len(hist)-1]["resolver_panics"] = true
+				c.Count("calls_cut_short_by_a_resolver_panic", 1)
+			}
+			got := resolveExePlan(h, exe, op, vars, plan)
+			lastCalls = append(lastCalls[:0], h.Calls...)
 			fresh, ferr := h.Root.ParseExecutableString(ec.Text)
 			if ferr != nil {
 				continue
 			}
-			want := resolveExe(h, fresh, op, vars)
+			want := resolveExePlan(h, fresh, op, vars, plan)
 			steps++
 			c.Count("calls_compared", 1)
 			if got.text() != want.text() || got.calls != want.calls {
